@@ -75,6 +75,10 @@ namespace sim
          { "maximum_rule_with_action", RC::INTEGER },
          { "hk_ca", RC::W_CONTROL_ACTION },
          { "hk_safe", RC::TC_RF_ANY },
+         { "n_call", RC::TC_RN_STD },     // the parse_nested call inside n_inc's action: std::exception -> nested parse_error at the ambient position
+         { "n_safe_pe", RC::TC_RF_PE },
+         { "n_safe_std", RC::TC_RF_STD },
+         { "n_renest", RC::TC_RN_PE },
          { "w_as", RC::W_CHANGE_STATE },
          { "mi_raise_a", RC::MI_RAISE },
          { "mi_raise_d", RC::MI_RAISE },
